@@ -53,11 +53,6 @@ class Built:
         self.budget = None
         self.breaker = None
 
-        # the decorator has no per-call sleep plumbing: call-level becomes policy-level
-        if entry == "decorator":
-            for k in ("handler", "before_sleep", "sleeper"):
-                if place.get(k) in ("call", "both"):
-                    place[k] = "policy" if place[k] == "call" else "both-policy"
         self.place = place
 
         b = cfg.get("budget")
@@ -80,26 +75,23 @@ class Built:
         bs_async = is_async and place.get("bs_async", False)
         sl_kind = "async" if (is_async and place.get("sleeper_kind", "async") == "async") else "sync"
 
-        def which(p):  # normalise 'both-policy'
-            return "both" if p == "both-policy" else p
+        def trio(key, make):
+            """(policy-level, call-level) stubs.  The decorator has no per-call sleep
+            plumbing: whatever would win (call-level if given) is installed at
+            policy level, keeping its label, so traces stay comparable."""
+            p = place.get(key, "none")
+            pol, call = _pick(p, make("policy"), make("call"))
+            if entry == "decorator":
+                return (call if call is not None else pol), None
+            return pol, call
 
-        h_pol, h_call = _pick(which(place.get("handler", "none")), env.make_handler("policy"), env.make_handler("call"))
-        b_pol, b_call = _pick(which(place.get("before_sleep", "none")), env.make_before_sleep("policy", bs_async),
-                              env.make_before_sleep("call", bs_async))
-        s_pol, s_call = _pick(which(place.get("sleeper", "none")), env.make_sleeper("policy", sl_kind),
-                              env.make_sleeper("call", sl_kind))
+        h_pol, h_call = trio("handler", env.make_handler)
+        b_pol, b_call = trio("before_sleep", lambda w: env.make_before_sleep(w, bs_async))
+        s_pol, s_call = trio("sleeper", lambda w: env.make_sleeper(w, sl_kind))
         a_pol_s, a_call_s = _pick(place.get("att_hooks", "none"), env.make_attempt_hook("policy", "start"),
                                   env.make_attempt_hook("call", "start"))
         a_pol_e, a_call_e = _pick(place.get("att_hooks", "none"), env.make_attempt_hook("policy", "end"),
                                   env.make_attempt_hook("call", "end"))
-        if entry == "decorator":
-            h_call = b_call = s_call = None
-            if place.get("handler") == "both-policy":
-                h_pol = env.make_handler("call")
-            if place.get("before_sleep") == "both-policy":
-                b_pol = env.make_before_sleep("call", bs_async)
-            if place.get("sleeper") == "both-policy":
-                s_pol = env.make_sleeper("call", sl_kind)
 
         default = cfg.get("default")
         table = cfg.get("table") or {}
